@@ -31,7 +31,7 @@ type TraceJob struct {
 	Heap    string
 	Timeout time.Duration
 	Extra   map[string]string
-	Header  []byte // optional first record of every shard (e.g. the schema); not counted as a case
+	Header  []byte             // optional first record of every shard (e.g. the schema); not counted as a case
 	Diffs   *[]json.RawMessage // if set, receives the diagnostic "diffs" entries of the reports
 }
 
